@@ -51,9 +51,10 @@ def internal_keys(draw):
 
 @st.composite
 def scripts(draw):
-    n = draw(st.one_of(st.integers(0, 40), st.sampled_from([0, 1, 252, 253, 254, 520, 10000, 65536])))
+    n = draw(st.one_of(st.integers(0, 40), st.sampled_from([0, 0, 1, 252, 253, 254, 520, 521, 10000, 10001, 12000, 65536])))
     if n > 300:
-        return bytes([draw(st.integers(0, 255))]) * n
+        # (half of the long leaves consist of OP_NOP: decodable, so that the spend session is really set up - a tapscript leaf has no size limit)
+        return bytes([draw(st.one_of(st.just(0x61), st.integers(0, 255)))]) * n
     return draw(st.binary(min_size=n, max_size=n))
 
 
@@ -162,7 +163,7 @@ def check_triple(c, ctx):
         raise Violation(c, 'stepwise commitment check ends in %s, BIP341 says %s (corruption: %s, m=%d)' % (r['res'], 'valid' if want else 'invalid', c['corr'], m), observed=r['res'], expected='done' if want else 'failed')
     if r['iters'] != m + 1:
         raise Violation(c, 'commitment check took %d iterations for a path of %d nodes' % (r['iters'], m), observed=r['iters'], expected=m + 1)
-    if m <= 8 and (control[0] & 0xfe) == 0xc0 and len(program) == 32 and len(control) == 33 + 32 * m and 0 < len(script) <= 10000:
+    if m <= 8 and (control[0] & 0xfe) == 0xc0 and len(program) == 32 and len(control) == 33 + 32 * m and len(script) <= 70000:
         check_phase(c, ctx, want, m)
 
 
@@ -181,8 +182,11 @@ def check_phase(c, ctx, want, m):
         raise Violation(c, 'spend session died in the commitment phase: %r' % r, observed=r)
     if 'refused' in r or r.get('timeout'):
         ctx.count('phase:session-refused:%s' % r.get('refused', 'timeout'))
+        if 'refused' in r and all(b == 0x61 for b in script):
+            # an empty leaf or one made of OP_NOP is decodable whatever its length: the session must be set up (the commitment then decides)
+            raise Violation(c, 'a spend of a decodable leaf of %d bytes is refused at set-up (%s): the commitment check never runs' % (len(script), r['refused']), observed=r)
         return
-    ctx.count('phase:' + ('valid' if want else 'invalid'))
+    ctx.count('phase:' + ('valid' if want else 'invalid') + (':empty-leaf' if not script else (':leaf>10000' if len(script) > 10000 else '')))
     log = r['log']
     if want:
         if any(not e['acc'] for e in log[:m + 1]) or log[m]['d']['tce']:
